@@ -106,6 +106,14 @@ theorem utf8_ok_nl (buf : List Byte) (b : Byte) (h : utf8Check (buf ++ [b]) = .o
     exact ⟨rfl, (byte_eq_nl b).2 ((utf8_single b).1 10 h).1.symm⟩
   · have := utf8_multi_code buf b 10 hne h; omega
 
+/-- a sequence that decodes to a code point below 128 is that single byte -/
+theorem utf8_ok_ascii (buf : List Byte) (b : Byte) (d : Nat) (hd : d < 128)
+    (h : utf8Check (buf ++ [b]) = .ok d) : buf = [] ∧ b.toNat = d := by
+  by_cases hne : buf = []
+  · subst hne
+    exact ⟨rfl, ((utf8_single b).1 d h).1.symm⟩
+  · have := utf8_multi_code buf b d hne h; omega
+
 /-- the newline byte is never part of a longer sequence: it ends whatever was being assembled -/
 theorem utf8_nl_byte (buf : List Byte) :
     utf8Check (buf ++ [NL]) = if buf = [] then .ok 10 else .bad := by
@@ -129,11 +137,11 @@ theorem readCharCGo_eq (buf : List Byte) (cs : List (List Byte)) :
     ((readCharCGo buf cs).1, (readCharCGo buf cs).2.flatten) = readCharGo buf cs.flatten := by
   fun_induction readCharCGo buf cs <;> simp_all [readCharGo]
 
-theorem readLineCGo_eq (raw esc : Bool) (buf : List Byte) (cs : List (List Byte))
+theorem readLineCGo_eq (d : Nat) (raw esc : Bool) (buf : List Byte) (cs : List (List Byte))
     (acc : List (Char × Bool)) :
-    ((readLineCGo raw esc buf cs acc).1, (readLineCGo raw esc buf cs acc).2.1,
-      (readLineCGo raw esc buf cs acc).2.2.flatten) = readLineGo raw esc buf cs.flatten acc := by
-  fun_induction readLineCGo raw esc buf cs acc <;> simp_all [readLineGo]
+    ((readLineCGo d raw esc buf cs acc).1, (readLineCGo d raw esc buf cs acc).2.1,
+      (readLineCGo d raw esc buf cs acc).2.2.flatten) = readLineGo d raw esc buf cs.flatten acc := by
+  fun_induction readLineCGo d raw esc buf cs acc <;> simp_all [readLineGo]
 
 /-! ### what `read_char` and `read` consume -/
 
@@ -173,23 +181,24 @@ theorem splitLine_unique (pre rest : List Byte) (h1 : pre.getLast? = some NL)
       rw [splitLine]
       simp only [hb, if_false, this]
 
-/-- a successful `read` consumed a prefix of the stream that ends with the newline -/
-theorem readLineGo_line (raw esc : Bool) (buf p : List Byte) (acc cs : List (Char × Bool))
-    (rest : List Byte) (h : readLineGo raw esc buf p acc = (cs, .found, rest)) :
-    ∃ pre, pre ++ rest = p ∧ pre.getLast? = some NL := by
+/-- a successful `read` consumed a prefix of the stream that ends with the delimiter byte -/
+theorem readLineGo_line (d : Nat) (hd : d < 128) (raw esc : Bool) (buf p : List Byte)
+    (acc cs : List (Char × Bool)) (rest : List Byte)
+    (h : readLineGo d raw esc buf p acc = (cs, .found, rest)) :
+    ∃ pre bl, pre ++ rest = p ∧ pre.getLast? = some bl ∧ bl.toNat = d := by
   induction p generalizing esc buf acc with
   | nil => by_cases hb : buf = [] <;> simp [readLineGo, hb] at h
   | cons b t ih =>
-    have cons_ok : ∀ pre, pre ++ rest = t → pre.getLast? = some NL →
-        ∃ pre', pre' ++ rest = b :: t ∧ pre'.getLast? = some NL := by
-      intro pre h1 h2
-      refine ⟨b :: pre, by simp [h1], ?_⟩
+    have cons_ok : ∀ pre bl, pre ++ rest = t → pre.getLast? = some bl → bl.toNat = d →
+        ∃ pre' bl', pre' ++ rest = b :: t ∧ pre'.getLast? = some bl' ∧ bl'.toNat = d := by
+      intro pre bl h1 h2 h3
+      refine ⟨b :: pre, bl, by simp [h1], ?_, h3⟩
       cases pre with
       | nil => simp at h2
       | cons x xs => simpa [List.getLast?_cons_cons] using h2
     simp only [readLineGo] at h
     cases hu : utf8Check (buf ++ [b]) with
-    | more => simp only [hu] at h; obtain ⟨pre, h1, h2⟩ := ih _ _ _ h; exact cons_ok pre h1 h2
+    | more => simp only [hu] at h; obtain ⟨pre, bl, h1, h2, h3⟩ := ih _ _ _ h; exact cons_ok pre bl h1 h2 h3
     | bad => simp [hu] at h
     | ok code =>
       simp only [hu] at h
@@ -197,25 +206,25 @@ theorem readLineGo_line (raw esc : Bool) (buf p : List Byte) (acc cs : List (Cha
       | true =>
         simp only [if_true] at h
         by_cases hc : code = 10
-        · simp only [hc, if_true] at h; obtain ⟨pre, h1, h2⟩ := ih _ _ _ h; exact cons_ok pre h1 h2
-        · simp only [hc, if_false] at h; obtain ⟨pre, h1, h2⟩ := ih _ _ _ h; exact cons_ok pre h1 h2
+        · simp only [hc, if_true] at h; obtain ⟨pre, bl, h1, h2, h3⟩ := ih _ _ _ h; exact cons_ok pre bl h1 h2 h3
+        · simp only [hc, if_false] at h; obtain ⟨pre, bl, h1, h2, h3⟩ := ih _ _ _ h; exact cons_ok pre bl h1 h2 h3
       | false =>
         simp only [Bool.false_eq_true, if_false] at h
-        by_cases hc : code = 10
+        by_cases hc : code = d
         · simp only [hc, if_true, Prod.mk.injEq, true_and] at h
           subst hc
-          have := (utf8_ok_nl buf b hu).2
-          exact ⟨[b], by simp [h.2], by simp [this]⟩
+          have := (utf8_ok_ascii buf b code hd hu).2
+          exact ⟨[b], b, by simp [h.2], by simp, this⟩
         · simp only [hc, if_false] at h
           by_cases hbs : code = 92 ∧ (!raw) = true
           · simp only [hbs, and_self, if_true] at h
-            obtain ⟨pre, h1, h2⟩ := ih _ _ _ h; exact cons_ok pre h1 h2
+            obtain ⟨pre, bl, h1, h2, h3⟩ := ih _ _ _ h; exact cons_ok pre bl h1 h2 h3
           · simp only [hbs, if_false] at h
-            obtain ⟨pre, h1, h2⟩ := ih _ _ _ h; exact cons_ok pre h1 h2
+            obtain ⟨pre, bl, h1, h2, h3⟩ := ih _ _ _ h; exact cons_ok pre bl h1 h2 h3
 
 /-- a successful `read -r` consumed exactly the first line -/
 theorem readLineGo_raw_line (buf p : List Byte) (acc cs : List (Char × Bool)) (rest : List Byte)
-    (h : readLineGo true false buf p acc = (cs, .found, rest)) :
+    (h : readLineGo 10 true false buf p acc = (cs, .found, rest)) :
     ∃ pre, pre ++ rest = p ∧ pre.getLast? = some NL ∧ NL ∉ pre.dropLast := by
   induction p generalizing buf acc with
   | nil => by_cases hb : buf = [] <;> simp [readLineGo, hb] at h
